@@ -313,6 +313,11 @@ func (s *Server) Subscribe(stream pb.GNMI_SubscribeServer) error {
 			&matchClient{acl: c.acl, q: c.queue})
 		verifAt("stream.registered", stream)
 		defer remove()
+		// The target may have been removed between the check above and the
+		// registration, in which case its delete was never offered to this client.
+		if !s.c.HasTarget(c.target) {
+			return status.Errorf(codes.NotFound, "no such target: %q", c.target)
+		}
 		if !c.sr.GetSubscribe().GetUpdatesOnly() {
 			go s.processSubscription(&c)
 		}
